@@ -142,7 +142,7 @@ class FakeTaskGroup:
         return app_put
 
     def spawn(self, func, *args):
-        self.sink.append(["spawnPings"])
+        self.sink.append(["spawnClose"] if any(type(a).__name__ == "StreamClosed" for a in args) else ["spawnPings"])
 
 
 def _ev_json(ev, ws_sent: Optional[list] = None) -> list:
